@@ -64,6 +64,18 @@ func (x *bctx) buildV2(kind string) bool {
 		if x.rng.IntN(4) == 0 {
 			txn.ArbitraryData = []byte("memo")
 		}
+		if kind == "v2-eph" && !c.NoStaleEphemeralProofs && x.rng.IntN(3) == 0 {
+			// an in-block parent carrying a (meaningless) Merkle proof: validation does not look at it, the
+			// transaction ID does not cover it, so any relayer can attach one
+			for i := range txn.SiacoinInputs {
+				if se := &txn.SiacoinInputs[i].Parent.StateElement; se.LeafIndex == types.UnassignedLeafIndex {
+					for k := 1 + x.rng.IntN(5); k > 0; k-- {
+						se.MerkleProof = append(se.MerkleProof, types.Hash256{0xEE, byte(k), byte(x.rng.IntN(256))})
+					}
+					c.Stats["ephemeral_parent_with_attached_proof"]++
+				}
+			}
+		}
 		c.SignV2(x.cs, &txn, x.curV2)
 		x.addV2(txn)
 		return true
